@@ -23,6 +23,22 @@ pub enum Kind {
     MergeVsRestart,
     /// an indexing worker / the caller is preempted by a reader loading the index for the first time
     WriterVsReload,
+    /// a merge thread is preempted between two of its storage operations by deletes / commits / rollback /
+    /// adds on the writer (the end_merge reconciliation of deletes newer than the merge's target opstamp)
+    MergeVsOps { action: usize },
+}
+
+pub fn merge_actions() -> Vec<Vec<Step>> {
+    use Step::*;
+    vec![
+        vec![DelId(1), Commit],
+        vec![DelId(1), Commit, DelId(3), Commit],
+        vec![DelId(1)],
+        vec![Add(5), DelId(2), Rollback],
+        vec![Add(5), Commit, Gc],
+        vec![DelId(1), DelId(2), Commit],
+        vec![DelId(4), Add(5), CommitPayload, DelId(5), Add(6)],
+    ]
 }
 
 pub fn reload_actions() -> Vec<Vec<Step>> {
@@ -45,6 +61,9 @@ pub fn scenarios(thorough: bool) -> Vec<Kind> {
     }
     v.push(Kind::MergeVsRestart);
     v.push(Kind::WriterVsReload);
+    for action in 0..merge_actions().len() {
+        v.push(Kind::MergeVsOps { action });
+    }
     if thorough {
         v.push(Kind::GcVsWriters { flush_after: None, workers: 1, compressor: true });
         v.push(Kind::GcVsWriters { flush_after: Some(1), workers: 2, compressor: false });
@@ -140,6 +159,7 @@ pub fn run(kind: &Kind, point: Option<&Point>) -> RunResult {
         Kind::ReloadVsWriter { second_handle, action } => reload_vs_writer(*second_handle, *action, point),
         Kind::MergeVsRestart => merge_vs_restart(point),
         Kind::WriterVsReload => writer_vs_reload(point),
+        Kind::MergeVsOps { action } => merge_vs_ops(*action, point),
     }
 }
 
@@ -422,6 +442,79 @@ fn merge_vs_restart(point: Option<&Point>) -> RunResult {
     res
 }
 
+fn merge_vs_ops(action: usize, point: Option<&Point>) -> RunResult {
+    use Step::*;
+    let mut res = RunResult::default();
+    crate::presched::set_flush(None);
+    let cfg = WlConfig { workers: 1, dedicated_compressor: false };
+    let sim = SimDirectory::new();
+    let mut d = Driver::new(sim.clone(), &cfg);
+    if d.create_index().is_err() || d.open_writer().is_err() {
+        res.violations.push(("machinery".into(), "setup failed".into()));
+        return res;
+    }
+    if !steps_ok(&mut d, &[Add(1), Add(2), Commit, Add(3), Add(4), Commit], &mut res.violations, "setup") {
+        return res;
+    }
+    let before = sim.thread_op_counts();
+    let log_from = sim.log_len();
+    let ids = d.index.as_ref().unwrap().searchable_segment_ids().unwrap_or_default();
+    let steps = merge_actions()[action].clone();
+    let drv = Arc::new(Mutex::new(d));
+    let action_errors: Arc<Mutex<Vec<(String, String)>>> = Arc::new(Mutex::new(vec![]));
+    let run_action = {
+        let (drv, errs, steps) = (drv.clone(), action_errors.clone(), steps.clone());
+        move || {
+            let mut d = drv.lock().unwrap();
+            let mut v = vec![];
+            steps_ok(&mut d, &steps, &mut v, "writer operations during the merge");
+            errs.lock().unwrap().extend(v);
+        }
+    };
+    let pre = point.map(|p| Preempt::arm(&sim, &p.tid, p.idx, Box::new(run_action.clone())));
+    let fut = {
+        let mut d = drv.lock().unwrap();
+        d.writer.as_mut().unwrap().merge(&ids)
+    };
+    let merge_result = fut.wait().map(|_| ()).map_err(|e| format!("{e:?}"));
+    res.notes.push(format!("merge future: {merge_result:?}"));
+    res.ranges = ranges_between(&before, &sim.thread_op_counts());
+    let fired = match pre {
+        Some(p) => {
+            let o = p.finish();
+            let f = o.fired;
+            if let Some(m) = &o.action_panic {
+                res.violations.push(("writer_action_panics".into(), m.clone()));
+            }
+            res.outcome = Some(o);
+            f
+        }
+        None => false,
+    };
+    if !fired {
+        run_action();
+    }
+    res.violations.extend(action_errors.lock().unwrap().drain(..));
+    crate::hist::wait_merges_quiescent();
+    let mut d = drv.lock().unwrap();
+    // whatever the merge did - published, reconciled or discarded - the published state is the last commit
+    match read_ids(&sim) {
+        Ok(ids) if ids == d.model.committed => {}
+        Ok(ids) => res.violations.push(("content_differs_after_merge".into(), format!("once the merge preempted at {:?} ended (merge future: {merge_result:?}) a fresh open shows {ids:?}; the last commit holds {:?}", res.outcome.as_ref().map(|o| o.at_op.clone()), d.model.committed))),
+        Err(e) => res.violations.push(("index_unreadable_after_merge".into(), e)),
+    }
+    // the uncommitted tail of the action becomes visible with the next commit, exactly
+    if d.writer.is_some() && steps_ok(&mut d, &[Commit], &mut res.violations, "after the merge") {
+        match read_ids(&sim) {
+            Ok(ids) if ids == d.model.committed => {}
+            Ok(ids) => res.violations.push(("content_differs_after_merge".into(), format!("after the merge preempted at {:?} and one more commit a fresh open shows {ids:?}; replaying the calls gives {:?}", res.outcome.as_ref().map(|o| o.at_op.clone()), d.model.committed))),
+            Err(e) => res.violations.push(("index_unreadable_after_merge".into(), e)),
+        }
+    }
+    final_checks(&sim, &mut d, &mut res, log_from);
+    res
+}
+
 fn writer_vs_reload(point: Option<&Point>) -> RunResult {
     use Step::*;
     let mut res = RunResult::default();
@@ -488,7 +581,7 @@ pub fn points(kind: &Kind, ranges: &BTreeMap<String, (usize, usize)>) -> Vec<Poi
             // the collection runs on the updater thread: it cannot preempt it
             Kind::GcVsWriters { .. } => tid != "U" && tid != "P",
             Kind::ReloadVsWriter { .. } => tid == "R",
-            Kind::MergeVsRestart => tid.starts_with('M'),
+            Kind::MergeVsRestart | Kind::MergeVsOps { .. } => tid.starts_with('M'),
             Kind::WriterVsReload => tid != "P",
         };
         if !eligible {
